@@ -292,6 +292,17 @@ def c05_step(op, out, before, after):
     elif cmd in ("tab", "prec", "deffmt", "option", "options", "incdir", "dtor", "chook", "incfn", "hook"):
         if cmd != "hook" and bsig != asig:
             bad.append("'%s' changed settings" % op)
+        if cmd == "option":
+            bit, flag = int(f[1]), int(f[2])
+            want = (int(b_attr[0]) | bit) if flag else (int(b_attr[0]) & ~bit)
+            if (int(a_attr[0]) - want) % 2**32 != 0:
+                bad.append("'%s' with options %s gave options %s (only that option may change: %d)" % (op, b_attr[0], a_attr[0], want))
+            if b_attr[1:] != a_attr[1:]:
+                bad.append("'%s' changed other attributes" % op)
+        if cmd in ("prec", "deffmt", "tab", "options") and b_attr is not None and a_attr is not None:
+            idx = {"options": 0, "tab": 1, "prec": 2, "deffmt": 3}[cmd]
+            if [x for i, x in enumerate(b_attr) if i != idx] != [x for i, x in enumerate(a_attr) if i != idx]:
+                bad.append("'%s' changed other attributes: %s -> %s" % (op, b_attr, a_attr))
         if cmd == "tab":
             w = int(f[1]) % 65536
             if int(a_attr[1]) != min(w, 15):
@@ -1019,6 +1030,9 @@ def c16_oracle(script, rec):
         else:
             calls = [l.split(" ")[2] for l in out if l.startswith("L dtor ")]
             pending.append((op, calls))
+            if f[0] in ("hook", "chook") and calls:
+                bad.append("'%s': attaching a hook called the destructor on %s although no setting was destroyed "
+                           "(config_setting_set_hook only stores the pointer)" % (op, calls))
             if f[0] == "dtor":
                 dtor_on = f[1] != "0"
             if f[0] == "init":
@@ -1476,10 +1490,16 @@ def c08_oracle(script, rec):
         f = op.split(" ")
         if f[0] == "reads":
             txt = unhx(f[1])
-            lit = txt[4:-1] if txt.startswith(b"a = ") and txt.endswith(b";") else None
-            cur = (lit, out[0] if out else None)
+            lit, where = None, 0
+            if txt.startswith(b"a = ") and txt.endswith(b";"):
+                lit = txt[4:-1]
+            elif txt.startswith(b"b = [ ") and txt.endswith(b" ];"):
+                lit, where = txt[6:-3], 1
+            elif txt.startswith(b"c = ( ") and txt.endswith(b" );"):
+                lit, where = txt[6:-3], 1
+            cur = (lit, out[0] if out else None, where)
         elif op == "dump" and cur and cur[0] is not None:
-            lit, r = cur
+            lit, r, where = cur
             exp = c08_expect(lit)
             root, _, err, _ = parse_dump(out)
             if exp == "skip":
@@ -1491,8 +1511,8 @@ def c08_oracle(script, rec):
             else:
                 if r != "R i1":
                     bad.append("literal %r is representable but the read failed" % lit)
-                elif root and root.kids:
-                    k = root.kids[0]
+                elif root and root.kids and (where == 0 or root.kids[0].kids):
+                    k = root.kids[0] if where == 0 else root.kids[0].kids[0]
                     if (k.ty, k.val, k.fmt) != exp:
                         bad.append("literal %r stored as type %d value %s format %d; its exact value is type %d value %s format %d" % (
                             (lit, k.ty, k.val, k.fmt) + exp))
@@ -1513,7 +1533,8 @@ def run_c08(ctx):
             body = ["init"]
             for l in lits[i:i + per]:
                 body += ["lex %s" % hx(l), "reads %s" % hx(b"a = " + l + b";"), "dump",
-                         "reads %s" % hx(b"b = [ " + l + b" ];"), "dump"]
+                         "reads %s" % hx(b"b = [ " + l + b" ];"), "dump",
+                         "reads %s" % hx(b"c = ( " + l + b" );"), "dump"]
             cases.append("\n".join(body) + "\n")
         res.distribution["literals"] = len(lits)
         res.distribution["accepted_by_spec"] = sum(1 for l in lits if isinstance(c08_expect(l), tuple))
@@ -1929,6 +1950,11 @@ def c19_oracle(script, rec):
             break
         if (o & 2) == 0 and b";" in re.sub(rb"\"(\\.|[^\"\\])*\"", b"", text):
             bad.append("semicolons written although the option is off")
+        want_n = b":" if o & 8 else b"="
+        for mm in re.finditer(rb"(?m)^[ \t]*[A-Za-z\*][-A-Za-z0-9_\*]* ([=:]) ([^\n{][^\n]*)$", text):
+            if mm.group(1) != want_n:
+                bad.append("assignment character %r of the non-group setting %r with options %d" % (mm.group(1), mm.group(0)[:40], o))
+                break
         want_g = b":" if o & 4 else b"="
         for mm in re.finditer(rb"(?m)^[ \t]*[A-Za-z\*][-A-Za-z0-9_\*]* ([=:]) (\n[ \t]*)?\{", text):
             if mm.group(1) != want_g:
@@ -2049,6 +2075,19 @@ def run_c20(ctx):
         big_tail = b"".join(b"k%d = %d;\n" % (i, i) for i in range(1500))
         texts.append(b"first = 1;\n@include \"c20inc.cfg\"\n" + big_tail)
         texts.append(b"@include \"c20inc.cfg\"\n" + big_tail + b"bad = ;\n")
+        # single tokens longer than the scanner's read buffer (YY_BUF_SIZE 16384): the buffer has to grow
+        longs = [16382, 16383, 16384, 16385, 20000, 33000] if ctx.tier == "quick" else \
+                [16380 + i for i in range(10)] + [20000, 32766, 32767, 32768, 32769, 50000, 70000]
+        for k, n in enumerate(longs):
+            kind = k % 4
+            if kind == 0:
+                texts.append(b"pre = 1;\ns = \"" + b"a" * n + b"\";\npost = 2;\n")
+            elif kind == 1:
+                texts.append(b"pre = 1;\n" + b"n" * n + b" = 1;\npost = 2;\n")
+            elif kind == 2:
+                texts.append(b"pre = 1;\nw =" + b" " * n + b"3;\npost = 2;\n")
+            else:
+                texts.append(b"pre = 1;\nd = [ 1, " + b"7" * n + b" ];\npost = 2;\n")
         cases = []
         for t in texts:
             body = ["init", "fs put %s %s" % (hx(b"c20inc.cfg"), hx(b"inc = 7;\n")), "fs put %s %s" % (hx(b"c20.cfg"), hx(t))]
@@ -2061,7 +2100,9 @@ def run_c20(ctx):
     res.rule = ("NUL-free texts whose size puts each token kind (name, every number form, string with escapes, booleans, the "
                 "three comment styles, adjacent strings, aggregates, punctuation) at every offset in a +-12 (quick) / +-64 "
                 "(thorough) byte window around the 8/16/24/32 KiB positions, valid and with a late syntax error, plus an "
-                "@include followed by more than one read block of the including text; each read through config_read_string, "
+                "@include followed by more than one read block of the including text, and single tokens (string, name, blank "
+                "run, digit run) of 16382..33000 (quick) / ..70000 (thorough) bytes that force the scanner's buffer to grow; "
+                "each read through config_read_string, "
                 "config_read on fmemopen, on cookie streams delivering 1,2,4095,...,8193-byte pieces, and config_read_file; "
                 "return value, settings, source lines, error text and line compared pairwise and with the model")
     res.distinct = len(set(cases))
